@@ -420,7 +420,7 @@ def run_shard(sh):
                 others = [b for b in range(len(progs)) if b != a]
                 if len(progs) == 2:
                     # quick: the two long scenarios that touch no registry state on first use are sampled 1:6
-                    stride = (12 if quick else 3) if name.startswith(('S4', 'S5')) else (4 if quick and name.startswith(('S9', 'S10', 'S13', 'S14')) else (2 if quick and name.startswith('S15') else 1))
+                    stride = (12 if quick else 3) if name.startswith(('S4', 'S5')) else (4 if quick and name.startswith(('S9', 'S10', 'S13', 'S14')) else (2 if quick and name.startswith(('S15', 'S16', 'S17', 'S18')) else 1))
                     if rand:
                         stride = 25 if quick else 5
                     for k in range(1, n_a + 1, stride):
@@ -431,7 +431,7 @@ def run_shard(sh):
                 # A preempted at every k, B switched back at each of its call boundaries (catches A's delayed writes that
                 # only a LATER call of B can observe)
                 if len(progs) == 2 and len(progs[others[0]]) > 1:
-                    stride2 = (40 if name.startswith('S5') else (10 if name.startswith('S15') else 5)) if quick else 1
+                    stride2 = (40 if name.startswith('S5') else (10 if name.startswith(('S15', 'S16', 'S17', 'S18')) else 5)) if quick else 1
                     if rand:
                         stride2 = 40 if quick else 6
                     for jb in range(1, len(progs[others[0]])):
